@@ -143,10 +143,25 @@ func main() {
 	rep := report{Model: m.name, Seed: *seed, Classes: map[string]int{}}
 	var lines, reals []string
 	seen := map[string]bool{}
-	_ = corpus
+	// replay: the cases are regenerated from the same seed and budget (the generators draw from one PRNG), and
+	// only those whose protocol line is listed in the corpus file are evaluated
+	var only map[string]bool
+	if *corpus != "" {
+		only = map[string]bool{}
+		if b, err := os.ReadFile(*corpus); err == nil {
+			for _, l := range strings.Split(string(b), "\n") {
+				if l != "" {
+					only[l] = true
+				}
+			}
+		}
+	}
 	for i := 0; i < *n; i++ {
 		line, real, class := m.gen(rng)
 		if line == "" {
+			continue
+		}
+		if only != nil && !only[line] {
 			continue
 		}
 		lines = append(lines, line)
@@ -204,6 +219,16 @@ func main() {
 		rep.First = append(rep.First, mismatch{"<driver answered " + strconv.Itoa(i) + " of " + strconv.Itoa(len(reals)) + " cases>", "", ""})
 	}
 	rep.Evaluations = len(reals)
+	if only != nil {
+		// findings on cases other than the replayed ones are not this replay's business
+		var keep []propFinding
+		for _, f := range propFindings {
+			if only[f.Case] {
+				keep = append(keep, f)
+			}
+		}
+		propFindings = keep
+	}
 	rep.Findings, rep.BySig = propFindings, propSeen
 	rep.WallS = time.Since(t0).Seconds()
 	b, _ := json.MarshalIndent(rep, "", " ")
